@@ -53,6 +53,7 @@ structure DSt where
   calSegs : Nat := 0
   calChecked : Nat := 0
   tzChecked : Nat := 0
+  argsDiffer : Nat := 0      -- update function asked for another (covering) region / also when there was nothing to do
   reprDiffers : Nat := 0     -- updates where model and implementation store the same set as different lists
   strideDst : Nat := 0       -- calendar evaluations in which a stride > 1 is counted across a UTC-offset change
   noops : Nat := 0
@@ -159,7 +160,12 @@ def handle (d : DSt) (n : Nat) (line : String) : IO DSt := do
         let noop := !cl && decide (e < numOf p.model.ve)
         let mown : List Seg := match p.ranges with
           | none => own
-          | some rg => (scriptFunc d.tz rg mb e).getD []
+          | some rg =>
+            -- the region the update function was actually asked for is an oracle input (it only has to cover the
+            -- refreshed region, checked below); fall back to the model's own region when it was not invoked
+            match ifb, ife with
+            | some fb, some fe => (scriptFunc d.tz rg fb fe).getD []
+            | _, _ => (scriptFunc d.tz rg mb e).getD []
         let lookup (useImpl : Bool) (ids : List Nat) : List (List Seg) :=
           ids.filterMap fun j => (findP d j).map fun q => if useImpl then q.impl.segs else q.model.segs
         let mu : UpdIn := { prefer := p.prefer, own := mown, incs := lookup false p.incs, excs := lookup false p.excs }
@@ -175,10 +181,17 @@ def handle (d : DSt) (n : Nat) (line : String) : IO DSt := do
           bad := true
         else if m'.segs != isegs then
           d := { d with reprDiffers := d.reprDiffers + 1 }
-        let mf : Option Int × Option Int := if noop then (none, none) else (some mb, some e)
-        if mf != (ifb, ife) then
-          IO.println s!"MISMATCH line={n} case={d.caseNo} what=update-args impl={showOpt ifb},{showOpt ife} model={showOpt mf.1},{showOpt mf.2}"
+        -- Property-relevant part of "when and how the update function is asked": whenever the call refreshes a region,
+        -- the function must have been asked for a region that covers it.  Whether it is also asked when there is
+        -- nothing to do, or for more than needed, does not matter.
+        let argsOk := noop || (match ifb, ife with
+          | some fb, some fe => decide (fb ≤ mb) && decide (e ≤ fe)
+          | _, _ => false)
+        if !argsOk then
+          IO.println s!"MISMATCH line={n} case={d.caseNo} what=update-args impl={showOpt ifb},{showOpt ife} model={showOpt (some mb)},{showOpt (some e)}"
           bad := true
+        else if (if noop then (none, none) else (some mb, some e)) != (ifb, ife) then
+          d := { d with argsDiffer := d.argsDiffer + 1 }
         match ownRet?, noop with
         | some o, false =>
           if canon o != canon mown then
@@ -291,4 +304,4 @@ def main : IO Unit := do
   let d ← foldLines stdin handle ({} : DSt)
   let d := closeCase d
   let forms := " ".intercalate (d.dayForms.map fun p => s!"form_{p.1}={p.2}")
-  IO.println s!"STATS cases={d.caseNo} updates={d.updates} queries={d.queries} scripts={d.scripts} cal_segments={d.calSegs} cal_checked={d.calChecked} tz_assumptions_checked={d.tzChecked} stride_across_offset_change={d.strideDst} noops={d.noops} non_clearing={d.nonClear} with_includes={d.withInc} with_excludes={d.withExc} cuts={d.splitN} shared_boundary_updates={d.sharedBoundary} inside_yes={d.insideYes} inside_no={d.insideNo} outside_window={d.outsideWindow} nontrivial={d.nontrivial} repr_differs={d.reprDiffers} mismatches={d.mismatches} specfails={d.specfails} {forms}"
+  IO.println s!"STATS cases={d.caseNo} updates={d.updates} queries={d.queries} scripts={d.scripts} cal_segments={d.calSegs} cal_checked={d.calChecked} tz_assumptions_checked={d.tzChecked} stride_across_offset_change={d.strideDst} noops={d.noops} non_clearing={d.nonClear} with_includes={d.withInc} with_excludes={d.withExc} cuts={d.splitN} shared_boundary_updates={d.sharedBoundary} inside_yes={d.insideYes} inside_no={d.insideNo} outside_window={d.outsideWindow} nontrivial={d.nontrivial} repr_differs={d.reprDiffers} args_differ={d.argsDiffer} mismatches={d.mismatches} specfails={d.specfails} {forms}"
